@@ -882,6 +882,7 @@ def process_template(unit, tpl_path=None, canary=False):
         return exp
     lines = expand(lines)
     out = []
+    emitted_items = set()
     fns = []          # names of functions under contract: "Type::fn"
     unannot = []
     cache = {}
@@ -917,6 +918,14 @@ def process_template(unit, tpl_path=None, canary=False):
             it = find_item(src, items, kind, name, path)
             text = src[it.s:it.e]
             i += 1
+            if kind != 'fn' and (path, kind, name) in emitted_items:
+                # the same item requested by two included parts: emit once
+                dummy = FnSpec(name)
+                i = parse_fn_directives(lines, i, dummy)
+                if i < len(lines) and lines[i].strip() == '//@end':
+                    i += 1
+                continue
+            emitted_items.add((path, kind, name))
             if kind == 'fn':
                 spec = FnSpec(name)
                 i = parse_fn_directives(lines, i, spec)
